@@ -135,6 +135,12 @@ var Items = []Item{
 	{ID: "closure-captures-loop-var", Decls: "type H%N% struct {\n\tf func() uint64\n}", Setup: "h := &H%N%{}", Core: "for i := uint64(0); i < 3; i++ {\n\t\th.f = func() uint64 {\n\t\t\treturn i\n\t\t}\n\t\tcontinue\n\t}\n\tr = h.f()", NoCtx: true, Known: "c02LoopVarCapture"},
 	{ID: "eval-order-args", Decls: "func bump%N%(p *uint64) uint64 {\n\t*p = *p + 1\n\treturn *p\n}\n\nfunc pair%N%(a uint64, b uint64) uint64 {\n\treturn a*10 + b\n}", Setup: "c := new(uint64)", Core: "r = pair%N%(bump%N%(c), bump%N%(c))", Known: "c02EvalOrder"},
 	{ID: "method-value", Decls: "type Mv%N% struct {\n\ta uint64\n}\n\nfunc (m Mv%N%) get() uint64 {\n\treturn m.a\n}", Setup: "m := Mv%N%{a: 6}", Core: "f := m.get\n\tr = f()", NoCtx: true, Known: "c02MethodValue"},
+	// method values of methods WITH parameters are partial applications (receiver evaluated when the value is made; seeded change C01-5)
+	{ID: "method-value-param-receiver-copied", Decls: "type Mw%N% struct {\n\ta uint64\n}\n\nfunc (m Mw%N%) add(x uint64) uint64 {\n\treturn m.a + x\n}", Setup: "var m Mw%N% = Mw%N%{a: 6}", Core: "f := m.add\n\tm.a = 100\n\tr = f(1)*1000 + m.a", NoCtx: true},
+	{ID: "method-value-param-pointer-shared", Decls: "type Mx2%N% struct {\n\ta uint64\n}\n\nfunc (m *Mx2%N%) add(x uint64) uint64 {\n\treturn m.a + x\n}", Setup: "p := &Mx2%N%{a: 6}", Core: "f := p.add\n\tp.a = 100\n\tr = f(1)", NoCtx: true},
+	{ID: "method-value-param-pointer-var-reassigned", Decls: "type My%N% struct {\n\ta uint64\n}\n\nfunc (m *My%N%) add(x uint64) uint64 {\n\treturn m.a + x\n}", Setup: "var p *My%N% = &My%N%{a: 6}", Core: "f := p.add\n\tp = &My%N%{a: 50}\n\tr = f(1)*1000 + p.a", NoCtx: true},
+	{ID: "method-value-param-through-field", Decls: "type Mz%N% struct {\n\ta uint64\n}\n\nfunc (m Mz%N%) add(x uint64) uint64 {\n\treturn m.a + x\n}\n\ntype Hz%N% struct {\n\tin Mz%N%\n}", Setup: "h := &Hz%N%{in: Mz%N%{a: 6}}", Core: "f := h.in.add\n\th.in = Mz%N%{a: 70}\n\tr = f(1)*1000 + h.in.a", NoCtx: true},
+	{ID: "method-value-param-passed", Decls: "type Mq%N% struct {\n\ta uint64\n}\n\nfunc (m Mq%N%) add(x uint64) uint64 {\n\treturn m.a + x\n}\n\nfunc apq%N%(f func(uint64) uint64) uint64 {\n\treturn f(2)\n}", Setup: "m := Mq%N%{a: 6}", Core: "r = apq%N%(m.add)"},
 	{ID: "implicit-addr-receiver", Decls: "type Ia%N% struct {\n\ta uint64\n}\n\nfunc (m *Ia%N%) inc() {\n\tm.a = m.a + 1\n}", Setup: "var m Ia%N% = Ia%N%{a: 6}", Core: "m.inc()\n\tr = m.a", Known: "c02ImplicitReceiver"},
 	{ID: "implicit-deref-receiver", Decls: "type Id2%N% struct {\n\ta uint64\n}\n\nfunc (m Id2%N%) get() uint64 {\n\treturn m.a\n}", Setup: "m := &Id2%N%{a: 6}", Core: "r = m.get()", Known: "c02ImplicitReceiver"},
 	{ID: "type-assertion", Core: "var x interface{} = uint64(3)\n\tr = x.(uint64)", NoCtx: true, Known: "c02InterfaceTypeInfo"},
@@ -169,7 +175,6 @@ var Items = []Item{
 	{ID: "int-type", Core: "var x int = 3\n\tr = uint64(x)", NoCtx: true},
 	{ID: "uint8-spelling", Setup: "a := uint64(300)", Core: "var x uint8 = uint8(a)\n\tr = uint64(x)", NoCtx: true},
 	{ID: "mutex-by-value", Decls: "type Mx%N% struct {\n\tmu sync.Mutex\n}", Core: "m := &Mx%N%{}\n\tm.mu.Lock()\n\tr = 1\n\tm.mu.Unlock()", NoCtx: true},
-
 
 	// ---- builtins with unusual but type-correct arguments ----
 	{ID: "panic-int", Setup: "a := uint64(1)", Core: "if a == 0 {\n\t\tpanic(42)\n\t}\n\tr = 1"},
@@ -207,6 +212,72 @@ var Items = []Item{
 	{ID: "index-of-call", Decls: "func mk%N%() []uint64 {\n\treturn make([]uint64, 2)\n}", Core: "r = mk%N%()[1] + 1"},
 	{ID: "selector-of-call", Decls: "type Sc%N% struct {\n\ta uint64\n}\n\nfunc mks%N%() Sc%N% {\n\treturn Sc%N%{a: 3}\n}", Core: "r = mks%N%().a"},
 
+	// ---- builtins × operand kinds: plain / named type / type parameter (seeded change C02-5) ----
+	{ID: "clear-slice", Setup: "s := make([]uint64, 3)\n\ts[1] = 5", Core: "clear(s)\n\tr = s[1] + uint64(len(s))"},
+	{ID: "clear-named-slice", Decls: "type Cb%N% []uint64", Setup: "var s Cb%N% = make([]uint64, 3)\n\ts[1] = 5", Core: "clear(s)\n\tr = s[1] + uint64(len(s))"},
+	{ID: "clear-named-map", Decls: "type Cm%N% map[uint64]uint64", Setup: "var m Cm%N% = make(map[uint64]uint64)\n\tm[1] = 2", Core: "clear(m)\n\tr = uint64(len(m)) + 1"},
+	{ID: "clear-type-param-slice", Decls: "func wipe%N%[S ~[]uint64](s S) {\n\tclear(s)\n}", Setup: "s := make([]uint64, 3)\n\ts[1] = 5", Core: "wipe%N%(s)\n\tr = s[1] + uint64(len(s))"},
+	{ID: "len-named-slice", Decls: "type Ln%N% []uint64", Setup: "var s Ln%N% = make([]uint64, 3)", Core: "r = uint64(len(s)) + uint64(cap(s))"},
+	{ID: "len-named-map", Decls: "type Lm%N% map[uint64]uint64", Setup: "var m Lm%N% = make(map[uint64]uint64)\n\tm[1] = 2", Core: "r = uint64(len(m))"},
+	{ID: "len-named-string", Decls: "type Ls%N% string", Setup: "var s Ls%N% = \"abc\"", Core: "r = uint64(len(s))"},
+	{ID: "append-named-slice", Decls: "type An%N% []uint64", Setup: "var s An%N%", Core: "s = append(s, 4)\n\tr = s[0] + uint64(len(s))"},
+	{ID: "make-named-slice", Decls: "type Mn%N% []uint64", Core: "s := make(Mn%N%, 3)\n\tr = uint64(len(s))", NoCtx: true},
+	{ID: "make-named-map", Decls: "type Mm2%N% map[uint64]uint64", Core: "m := make(Mm2%N%)\n\tm[1] = 2\n\tr = m[1]", NoCtx: true},
+	{ID: "index-named-slice", Decls: "type In%N% []uint64", Setup: "var s In%N% = make([]uint64, 3)\n\ts[1] = 5", Core: "r = s[1]"},
+	{ID: "index-named-map", Decls: "type Im%N% map[uint64]uint64", Setup: "var m Im%N% = make(map[uint64]uint64)\n\tm[1] = 5", Core: "r = m[1]"},
+	{ID: "range-named-slice", Decls: "type Rn%N% []uint64", Setup: "var s Rn%N% = make([]uint64, 3)", Core: "for i := range s {\n\t\tr += uint64(i) + 1\n\t}"},
+	{ID: "range-named-map", Decls: "type Rm%N% map[uint64]uint64", Setup: "var m Rm%N% = make(map[uint64]uint64)\n\tm[1] = 5", Core: "for k, v := range m {\n\t\tr += k + v\n\t}"},
+	{ID: "new-named-struct-pointer", Decls: "type Ns2%N% struct {\n\ta uint64\n}\n\ntype Np2%N% *Ns2%N%", Core: "var p Np2%N% = new(Ns2%N%)\n\tr = p.a + 1", NoCtx: true},
+	{ID: "min-max-u32", Setup: "var a uint32 = 3\n\tvar b uint32 = 9", Core: "r = uint64(min(a, b))*10 + uint64(max(a, b))"},
+	{ID: "print-builtin", Setup: "a := uint64(3)", Core: "println(a)\n\tr = a"},
+
+	// ---- assignment target × position (seeded change C02-4): := variables and parameters are values in GooseLang ----
+	{ID: "assign-define-var-after-capture", Core: "x := uint64(1)\n\tf := func() uint64 {\n\t\treturn x\n\t}\n\tx = 2\n\tr = f()", NoCtx: true},
+	{ID: "opassign-define-var-after-capture", Core: "x := uint64(1)\n\tf := func() uint64 {\n\t\treturn x\n\t}\n\tx += 5\n\tr = f()*10 + x", NoCtx: true},
+	{ID: "assign-param-after-capture", Decls: "func pc%N%(x uint64) uint64 {\n\tf := func() uint64 {\n\t\treturn x\n\t}\n\tx = x + 1\n\treturn f()*10 + x\n}", Core: "r = pc%N%(4)"},
+	{ID: "assign-define-var-in-branch", Setup: "a := uint64(2)", Core: "x := uint64(1)\n\tif a > 1 {\n\t\tx = 5\n\t}\n\tr = x", NoCtx: true},
+	{ID: "assign-define-var-in-loop", Core: "x := uint64(1)\n\tfor i := uint64(0); i < 3; i++ {\n\t\tx = x + i\n\t}\n\tr = x", NoCtx: true},
+	{ID: "assign-define-var-in-closure", Core: "x := uint64(1)\n\tf := func() {\n\t\tx = 7\n\t}\n\tf()\n\tr = x", NoCtx: true},
+	{ID: "assign-define-var-in-nested-block", Core: "x := uint64(1)\n\t{\n\t\tx = 7\n\t}\n\tr = x", NoCtx: true},
+	{ID: "assign-define-var-then-early-return", Decls: "func er%N%(a uint64) uint64 {\n\tx := uint64(1)\n\tx = a + 1\n\tif a > 5 {\n\t\treturn x\n\t}\n\treturn x * 2\n}", Core: "r = er%N%(3)*100 + er%N%(9)"},
+	{ID: "opassign-param", Decls: "func op%N%(x uint64) uint64 {\n\tx += 3\n\treturn x\n}", Core: "r = op%N%(4)"},
+	{ID: "assign-range-var", Setup: "s := make([]uint64, 3)", Core: "for _, v := range s {\n\t\tv = v + 1\n\t\tr += v\n\t}"},
+	{ID: "assign-multi-define-var", Core: "a, b := uint64(1), uint64(2)\n\ta = b\n\tr = a + b", NoCtx: true},
+	{ID: "redefine-one-new", Core: "a := uint64(1)\n\ta, b := uint64(5), uint64(2)\n\tr = a*10 + b", NoCtx: true},
+	{ID: "redefine-after-capture", Decls: "func two2%N%() (uint64, uint64) {\n\treturn 5, 6\n}", Core: "a := uint64(1)\n\tf := func() uint64 {\n\t\treturn a\n\t}\n\ta, b := two2%N%()\n\tr = f()*100 + a*10 + b", NoCtx: true, Known: "c02RedefineAfterCapture"},
+
+	// ---- declarations: unusual but type-correct (seeded change C07-4) ----
+	{ID: "constraint-interface-union", Decls: "type Num%N% interface {\n\t~uint64 | ~uint32\n}\n\nfunc gmax%N%[T Num%N%](a T, b T) T {\n\tif a > b {\n\t\treturn a\n\t}\n\treturn b\n}", Core: "r = gmax%N%[uint64](3, 4)"},
+	{ID: "constraint-interface-tilde", Decls: "type Tl%N% interface {\n\t~uint64\n}\n\nfunc gid2%N%[T Tl%N%](a T) T {\n\treturn a\n}", Core: "r = gid2%N%[uint64](3)"},
+	{ID: "constraint-inline-union", Decls: "func gin%N%[T ~uint64 | ~uint32](a T) T {\n\treturn a\n}", Core: "r = gin%N%[uint64](3)"},
+	{ID: "constraint-comparable", Decls: "func geq%N%[T comparable](a T, b T) bool {\n\treturn a == b\n}", Core: "if geq%N%[uint64](3, 3) {\n\t\tr = 1\n\t}"},
+	{ID: "embedded-interface", Decls: "type Ea%N% interface {\n\tGet() uint64\n}\n\ntype Eb2%N% interface {\n\tEa%N%\n\tPut(x uint64)\n}", Core: "r = 1"},
+	{ID: "embedded-generic-interface", Decls: "type Eg%N%[T any] interface {\n\tGet() T\n}\n\ntype Eh%N% interface {\n\tEg%N%[uint64]\n}", Core: "r = 1"},
+	{ID: "embedded-pointer-field", Decls: "type Ep%N% struct {\n\ta uint64\n}\n\ntype Eq%N% struct {\n\t*Ep%N%\n}", Core: "o := Eq%N%{Ep%N%: &Ep%N%{a: 2}}\n\tr = o.a + 1", NoCtx: true},
+	{ID: "embedded-qualified-field", Decls: "type Em%N% struct {\n\tsync.Mutex\n\ta uint64\n}", Core: "o := &Em%N%{a: 2}\n\to.Lock()\n\tr = o.a\n\to.Unlock()", NoCtx: true},
+	{ID: "method-expression", Decls: "type Me%N% struct {\n\ta uint64\n}\n\nfunc (m Me%N%) get() uint64 {\n\treturn m.a\n}", Setup: "m := Me%N%{a: 6}", Core: "f := Me%N%.get\n\tr = f(m)", NoCtx: true},
+	{ID: "blank-param", Decls: "func bp%N%(_ uint64, x uint64) uint64 {\n\treturn x\n}", Core: "r = bp%N%(1, 2)"},
+	{ID: "blank-field", Decls: "type Bf%N% struct {\n\t_ uint64\n\ta uint64\n}", Core: "o := Bf%N%{a: 3}\n\tr = o.a", NoCtx: true},
+	{ID: "blank-global-var", Decls: "var _ = uint64(3)", Core: "r = 1"},
+	{ID: "blank-const", Decls: "const _ uint64 = 3", Core: "r = 1"},
+	{ID: "blank-func", Decls: "func _() {\n}", Core: "r = 1"},
+	{ID: "blank-receiver", Decls: "type Br%N% struct {\n\ta uint64\n}\n\nfunc (_ Br%N%) one() uint64 {\n\treturn 1\n}", Core: "r = Br%N%{}.one()"},
+	{ID: "unnamed-receiver", Decls: "type Ur%N% struct {\n\ta uint64\n}\n\nfunc (Ur%N%) one() uint64 {\n\treturn 1\n}", Core: "r = Ur%N%{}.one()"},
+	{ID: "named-func-type", Decls: "type Fn%N% func(uint64) uint64", Core: "var f Fn%N% = func(x uint64) uint64 {\n\t\treturn x + 1\n\t}\n\tr = f(2)", NoCtx: true},
+	{ID: "named-to-named-conversion", Decls: "type Na2%N% uint64\n\ntype Nb2%N% uint64", Setup: "var a Na2%N% = 4", Core: "r = uint64(Nb2%N%(a)) + 1"},
+	{ID: "nil-argument-slice", Decls: "func ln%N%(s []uint64) uint64 {\n\treturn uint64(len(s))\n}", Core: "r = ln%N%(nil) + 1"},
+	{ID: "nil-argument-map", Decls: "func lm%N%(m map[uint64]uint64) uint64 {\n\treturn uint64(len(m))\n}", Core: "r = lm%N%(nil) + 1", Known: "c02PointerNilAssign"},
+	{ID: "nil-return-pointer", Decls: "func np%N%() *uint64 {\n\treturn nil\n}", Core: "if np%N%() == nil {\n\t\tr = 1\n\t}", Known: "c02PointerNilAssign"},
+	{ID: "nil-argument-pointer", Decls: "func ip%N%(p *uint64) uint64 {\n\tif p == nil {\n\t\treturn 1\n\t}\n\treturn 2\n}", Core: "r = ip%N%(nil)", Known: "c02PointerNilAssign"},
+	{ID: "nil-initialiser-pointer", Core: "var p *uint64 = nil\n\tif p == nil {\n\t\tr = 1\n\t}", NoCtx: true, Known: "c02PointerNilAssign"},
+	{ID: "nil-field-pointer", Decls: "type Nf%N% struct {\n\tp *uint64\n}", Core: "o := Nf%N%{p: nil}\n\tif o.p == nil {\n\t\tr = 1\n\t}", NoCtx: true, Known: "c02PointerNilAssign"},
+	{ID: "nil-return-slice", Decls: "func ns%N%() []uint64 {\n\treturn nil\n}", Core: "r = uint64(len(ns%N%())) + 1"},
+	{ID: "redefine-var-declared", Decls: "func two3%N%() (uint64, uint64) {\n\treturn 5, 6\n}", Core: "var a uint64 = 1\n\ta, b := two3%N%()\n\tr = a*10 + b", NoCtx: true, Known: "c02RedefinePtrWrapped"},
+	{ID: "any-variable", Core: "var x any = uint64(3)\n\t_ = x\n\tr = 1", NoCtx: true},
+	{ID: "struct-with-func-type-param", Decls: "func ap%N%(f func(uint64) uint64, x uint64) uint64 {\n\treturn f(x)\n}", Core: "r = ap%N%(func(y uint64) uint64 {\n\t\treturn y * 2\n\t}, 4)"},
+	{ID: "type-alias", Decls: "type Al%N% = uint64", Setup: "var a Al%N% = 4", Core: "r = a + 1"},
+	{ID: "generic-type-method", Known: "c02GenericMethodCrash", Decls: "type Gt%N%[T any] struct {\n\tv T\n}\n\nfunc (g Gt%N%[T]) get() T {\n\treturn g.v\n}", Core: "o := Gt%N%[uint64]{v: 3}\n\tr = o.get()", NoCtx: true},
+	{ID: "init-func", Decls: "var initv%N% uint64\n\nfunc init() {\n\tinitv%N% = 3\n}", Core: "r = initv%N% + 1"},
 
 	// ---- look-alikes: user definitions named like GooseLang library functions (captured by later emitted code) ----
 	{ID: "user-func-SliceGet", Decls: "func SliceGet(x uint64) uint64 {\n\treturn x + 100\n}", Setup: "s := make([]uint64, 2)\n\ts[1] = 5", Core: "r = s[1] + SliceGet(1)", Known: "c02LibraryNameCapture"},
